@@ -870,3 +870,17 @@ impl<F: Future> Future for ModelFuture<F> {
         poll
     }
 }
+
+#[cfg(nexosim_verif)]
+impl Simulation {
+    /// Verification hook: read-only dump of the scheduler queue as `(time,
+    /// origin id, epoch, is_cancelled)` in unspecified order.
+    pub fn verif_queue_dump(&self) -> Vec<(MonotonicTime, usize, u64, bool)> {
+        let scheduler_queue = self.scheduler_queue.lock().unwrap();
+        scheduler_queue
+            .verif_dump()
+            .into_iter()
+            .map(|((time, origin), epoch, action)| (time, origin, epoch, action.is_cancelled()))
+            .collect()
+    }
+}
